@@ -379,13 +379,13 @@ def gen_step(rng, snap, hist_len):
         elif r < 0.89:
             ops.append({"op": "mkfile", "path": lat(parent + rng.choice([b".git/x", b".svn/y", b"BaseDirList.txt"])), "data": hexd, "mode": 0o644})
         # ---- manipulations of cache.bin (all keep it truthful)
-        elif r < 0.905:
+        elif r < 0.90:
             ops.append({"op": "ix_delete"})
-        elif r < 0.925:
+        elif r < 0.915:
             ops.append({"op": "ix_truncate", "cut": rng.choice([1, 2, 19, 20, 21, 40, 66, 67, 70, 100, 140])})
-        elif r < 0.945 and hist_len:
+        elif r < 0.93 and hist_len:
             ops.append({"op": "ix_restore", "step": rng.randrange(hist_len)})
-        elif r < 0.955:
+        elif r < 0.94:
             ops.append({"op": "ix_shuffle", "seed": rng.randrange(1 << 30)})
         elif r < 0.985:
             ops.append({"op": "ix_forge", "rec": rng.randrange(1 << 20),
@@ -643,73 +643,101 @@ class History:
 
 
 # =========================================================================== Coq literals
+# Decimal N literals cost ~100 us each in coqc (number notation), which dominated the run time.
+# Byte strings are therefore written as lists of primitive 63-bit integers carrying 7 bytes each
+# (decoded by `ub` in the preamble) and numbers as `nn <uint63>`; blobs are referred to by their
+# index in the per-case digest table.
+def cb(b):
+    if not b:
+        return "(@nil N)"
+    ws = [str(int.from_bytes(b[i:i + 7], "little")) for i in range(0, len(b), 7)]
+    return "(ub %d ([%s]%%uint63))" % (len(b), ";".join(ws))
+
+
+def cn(n):
+    assert n >= 0
+    if n < (1 << 62):
+        return "(nn %d)" % n
+    return "(nn2 %d %d)" % (n >> 32, n & 0xFFFFFFFF)
+
+
 def coq_stat(st):
-    return "(mkstat %d %d %d %d %d %d)" % st
+    return "(mkstat %s)" % " ".join(cn(x) for x in st)
 
 
 def coq_entries(entries):
     if not entries:
         return "(@nil (list N * tree))"
-    return "[" + "; ".join("(%s, %s)" % (L.by(e["name"]), coq_tree(e)) for e in entries) + "]"
+    return "[" + "; ".join("(%s, %s)" % (cb(e["name"]), coq_tree(e)) for e in entries) + "]"
 
 
 def coq_tree(e):
     k = e["kind"]
     st = coq_stat(e["st"])
     if k == "f":
-        return "(File %s %s)" % (st, L.by(e["data"]))
+        return "(File %s %s)" % (st, cb(e["data"]))
     if k == "l":
-        return "(Link %s %s)" % (st, L.by(e["data"]))
+        return "(Link %s %s)" % (st, cb(e["data"]))
     if k == "d":
         return "(Dir %s %s)" % (st, coq_entries(e["children"]))
     if k in "cb":
-        return "(Dev %s %d)" % (st, e["rdev"])
+        return "(Dev %s %s)" % (st, cn(e["rdev"]))
     if k == "p":
         return "(Fifo %s)" % st
     return "(Other %s)" % st
 
 
 def coq_opt_bytes(b):
-    return "(@None (list N))" if b is None else "(Some %s)" % L.by(b)
-
-
-def coq_blobs(bs):
-    return "(@nil (list N))" if not bs else "[" + "; ".join(L.by(b) for b in bs) + "]"
-
-
-def coq_events(ev, with_reads):
-    xs = []
-    for k, v in ev:
-        if k == "r":
-            if with_reads:
-                xs.append("EvCheck %s false" % L.by(v))
-        else:
-            xs.append("EvHash %s" % L.by(v))
-    return "(@nil event)" if not xs else "[" + "; ".join(xs) + "]"
+    return "(@None (list N))" if b is None else "(Some %s)" % cb(b)
 
 
 PREAMBLE = """
 Require Import BobV.Gen.ConstsC11.
+From Coq Require Import Uint63 ZArith.
+(* literal decoding *)
+Definition nn (w : int) : N := Z.to_N (Uint63.to_Z w).
+Definition nn2 (hi lo : int) : N := nn hi * 4294967296 + nn lo.
+Definition byte_at (w : int) (k : int) : N := nn (Uint63.land (Uint63.lsr w (Uint63.mul 8 k)) 255).
+Fixpoint unpack (n : nat) (ws : list int) : list N :=
+  match ws with
+  | [] => []
+  | w :: r =>
+      match n with
+      | O => []
+      | _ => firstn n [byte_at w 0; byte_at w 1; byte_at w 2; byte_at w 3; byte_at w 4; byte_at w 5; byte_at w 6]
+             ++ unpack (n - 7) r
+      end
+  end.
+Definition ub (n : int) (ws : list int) : list N := unpack (Z.to_nat (Uint63.to_Z n)) ws.
+Arguments nn w%uint63.
+Arguments nn2 hi%uint63 lo%uint63.
+Arguments ub n%uint63 ws%uint63.
+(* what the worker observed: a read of a file/link (= miss) or the i-th blob of the table given to sha1 *)
+Inductive xe := XR (p : list N) | XH (i : nat).
 Definition obs (wr : bool) (l : list event) : list event :=
   filter (fun e => match e with EvCheck _ h => wr && negb h | EvHash _ => true end) l.
 Definition inp := (bool * list (list N) * entries * option (list N) * list (list N * list N))%type.
-Definition outp := (list N * list (list N) * list N * option (list N) * list event)%type.
+Definition outp := (list N * list nat * list N * option (list N) * list xe)%type.
+Definition blob_at (tab : list (list N * list N)) (i : nat) : list N := fst (nth i tab ([998], [])).
 Definition verdict (i : inp) (o : outp) : list bool :=
   let '(wr, ign, es, f, tab) := i in
-  let '(ud, ub, xcd, xnf, xev) := o in
+  let '(ud, ubl, xcd, xnf, xev) := o in
   let H := H_table tab in
   let '(cd, nf) := hash_cached H (IGNORE_DIRS ++ ign) f es in
   let '(cd2, nf2, ev) := hash_cached_traced H (IGNORE_DIRS ++ ign) f es in
-  [ consts_ok;
+  [ consts_ok && bytes_eqb (ub 9 ([14263770653647201; 17481]%uint63)) [97; 225; 247; 230; 210; 172; 50; 73; 68]
+      && (nn2 4294967295 4294967295 =? 18446744073709551615);
     bytes_eqb cd cd2 && eqb_option bytes_eqb nf nf2;
     bytes_eqb (hash_dir H (IGNORE_DIRS ++ ign) es) ud;
-    eqb_list bytes_eqb (hashed_dir H (IGNORE_DIRS ++ ign) es) ub;
+    eqb_list bytes_eqb (hashed_dir H (IGNORE_DIRS ++ ign) es) (map (blob_at tab) ubl);
     bytes_eqb cd xcd;
     eqb_option bytes_eqb (next_file f nf) xnf;
-    eqb_list event_eqb (obs wr ev) xev ].
+    eqb_list event_eqb (obs wr ev)
+      (map (fun x => match x with XR p => EvCheck p false | XH i => EvHash (blob_at tab i) end) xev) ].
 Definition case_ok (i : inp) (o : outp) : bool := forallb (fun b => b) (verdict i o).
 """
-VERDICT_NAMES = ["constants (struct formats) as the model expects", "traced and plain cached run agree (model-internal)",
+VERDICT_NAMES = ["constants (struct formats) as the model expects; literal decoding self-test",
+                 "traced and plain cached run agree (model-internal)",
                  "uncached digest", "uncached sequence of blobs given to SHA-1", "cached digest",
                  "content of cache.bin after the run", "cached run: sequence of reads (misses) and blobs given to SHA-1"]
 
@@ -717,13 +745,22 @@ VERDICT_NAMES = ["constants (struct formats) as the model expects", "traced and 
 def make_case(obs, ignore, with_reads):
     tab = {}
     for k, v in obs["cev"] + obs["uev"]:
-        if k == "h":
-            tab[v] = hashlib.sha1(v).digest()
-    tabl = "(@nil (list N * list N))" if not tab else "[" + "; ".join("(%s, %s)" % (L.by(k), L.by(d)) for k, d in tab.items()) + "]"
-    ign = "(@nil (list N))" if not ignore else "[" + "; ".join(L.by(os.fsencode(i)) for i in ignore) + "]"
+        if k == "h" and v not in tab:
+            tab[v] = len(tab)
+    tabl = "(@nil (list N * list N))" if not tab else "[" + "; ".join(
+        "(%s, %s)" % (cb(k), cb(hashlib.sha1(k).digest())) for k in tab) + "]"
+    ign = "(@nil (list N))" if not ignore else "[" + "; ".join(cb(os.fsencode(i)) for i in ignore) + "]"
     i = "(%s, %s, %s, %s, %s)" % (L.B(with_reads), ign, coq_entries(obs["snap"]), coq_opt_bytes(obs["old"]), tabl)
-    o = "(%s, %s, %s, %s, %s)" % (L.by(obs["ud"]), coq_blobs([v for k, v in obs["uev"] if k == "h"]), L.by(obs["cd"]),
-                                  coq_opt_bytes(obs["new"]), coq_events(obs["cev"], with_reads))
+    ub = [str(tab[v]) + "%nat" for k, v in obs["uev"] if k == "h"]
+    xev = []
+    for k, v in obs["cev"]:
+        if k == "r":
+            if with_reads:
+                xev.append("XR %s" % cb(v))
+        else:
+            xev.append("XH %d%%nat" % tab[v])
+    o = "(%s, %s, %s, %s, %s)" % (cb(obs["ud"]), "[" + "; ".join(ub) + "]" if ub else "(@nil nat)", cb(obs["cd"]),
+                                  coq_opt_bytes(obs["new"]), "[" + "; ".join(xev) + "]" if xev else "(@nil xe)")
     return i, o
 
 
@@ -966,6 +1003,7 @@ def run_with(ctx, worker):
     copy_checks(ctx, worker, rng, ctx.n(25, 300))
 
     # ---- model side
+    t_impl = ctx.elapsed()
     with_reads = seen_reads[0]
     if not with_reads:
         ctx.note("no file reads were observed in the worker (open/os.readlink wrappers blind): only SHA-1 input sequences compared")
@@ -975,11 +1013,13 @@ def run_with(ctx, worker):
         cases.append(make_case(o, ignore, with_reads))
         meta.append(m)
     bad, log = coq.run_cases(ctx, ["BobV.C11.Model"], "(fun i => i)", "case_ok", cases, preamble=PREAMBLE, tag="c11",
-                             shard=max(40, (len(cases) + 13) // 14))
+                             shard=max(40, (len(cases) + 5) // 6))
     if bad is None:
         ctx.tie_broken("C11 model evaluation failed", log)
         return
     ctx.validated(len(cases) - len(bad))
+    ctx.note("timing: implementation side done after %.1fs, model evaluation of %d cases (%d kB of Coq) took %.1fs" % (
+        t_impl, len(cases), sum(len(a) + len(b) for a, b in cases) // 1024, ctx.elapsed() - t_impl))
     if bad:
         ctx.count("model-mismatch", len(bad))
         for i in bad[:4]:
